@@ -130,6 +130,21 @@ func detWorkload(t *sim.Tape) (ops []detOp, desc string) {
 			return r
 		}})
 	}
+	if bm := gen.BadFontMatrixFont(t); bm != nil && t.Choose(3) == 0 {
+		ord := fontFiles
+		ops = append(ops, detOp{name: "type1.Read x40 (non-numeric FontMatrix entry) then ordinary font", run: func() string {
+			r := ""
+			for i := 0; i < 40; i++ {
+				g, err := type1.Read(bytes.NewReader(bm))
+				r = dump.Err(err) + " " + dump.Font(g)
+			}
+			if len(ord) > 0 {
+				g2, err2 := type1.Read(bytes.NewReader(ord[0]))
+				r += " | " + dump.Err(err2) + " " + digest(dump.Font(g2))
+			}
+			return r
+		}})
+	}
 	if cf := gen.CaseVariantFont(t); cf != nil {
 		ops = append(ops, detOp{name: "type1.Read(FontInfo keys differing in case only)", run: func() string {
 			g, err := type1.Read(bytes.NewReader(cf))
